@@ -1,10 +1,17 @@
-from .kd_stochastic_transform import KDStochasticTransform
+from .base.kd_stochastic_transform import KDStochasticTransform
+from .base.kd_transform import KDTransform
 
 
 class KDTransformChoice(KDStochasticTransform):
     def __init__(self, transforms, **kwargs):
         super().__init__(**kwargs)
         self.transforms = transforms
+
+    def set_rng(self, rng):
+        for transform in self.transforms:
+            if isinstance(transform, KDTransform):
+                transform.set_rng(rng)
+        return super().set_rng(rng)
 
     def __call__(self, x, ctx=None):
         # select which transform to apply
